@@ -3,10 +3,16 @@
 Abstract histories over a tree of real `LokyProcess` / `LokyInitMainProcess` members (root = a fresh
 Python process): spawn at any depth, tracked operations on files, signals to any tracker incarnation at
 any time (right after its launch included), deaths of the members in any order by normal return,
-uncaught exception, KeyboardInterrupt (SIGINT), os._exit, SIGTERM, SIGKILL.  The same history is fed to
-the Lean driver; the oracle below is written from the statement of C12 and does not use the model.
+uncaught exception, KeyboardInterrupt (SIGINT), os._exit, SIGTERM, SIGKILL.  Tracked operations are done by
+the main thread of a member, by another thread (so that the tracker is launched / relaunched from a non-main
+thread), or by several threads at once (first use, or first use after the tracker was killed); a
+`loky_init_main` child may use the tracker while its main module is re-imported, i.e. before its
+target runs.  The same history is fed to the Lean driver; the oracle below is written from the statement
+of C12 and does not use the model.
 """
-from ..realproc.tt_engine import E3TreeProp, RELAUNCH
+from ..realproc.tt_engine import E3TreeProp, RELAUNCH, NSEMS
+
+TRACKED = ("spawn", "op", "opsig", "pop", "pnew")      # steps in which the acting member uses the tracker
 
 KILLISH = ("kill", "term", "osexit")
 SOFT = ("normal", "exc", "int")
@@ -25,6 +31,10 @@ class Sim:
         self.files = []
         self.next_member = 1
         self.next_file = 1
+        self.next_obj = 1
+        self.initmain = {0: True}     # the member's main module is the scenario's main script (tt_root)
+        self.must_crash = set()       # members owning a Lock created at import time: it has lost its finalizer
+        #                               (reported finding of C13), a soft exit would not unlink it
 
     def ensure(self, p):
         t = self.trk[p]
@@ -47,12 +57,18 @@ class Prop(E3TreeProp):
     id = "C12"
     lean_modules = ["LokyModel.Props.C12"]
     budget = {"quick": 170, "thorough": 1700}
-    n_cases = {"quick": 19, "thorough": 560}
+    n_cases = {"quick": 50, "thorough": 560}
     search_cases = {"quick": 10, "thorough": 40}
     rule = ("real process trees: root + LokyProcess/LokyInitMainProcess members, depth <= 2 (quick) / 3 (thorough), "
             "<= 6 members; per tree 6-16 steps of spawn / tracked op on files / info / INT-TERM-KILL to any tracker "
             "incarnation (also right after its launch) / death of a member (normal, exception, KeyboardInterrupt, "
-            "os._exit, SIGTERM, SIGKILL) and then the death of every remaining member in random order. Compared with "
+            "os._exit, SIGTERM, SIGKILL) and then the death of every remaining member in random order; tracked "
+            "operations by the main thread, by another thread (launch / relaunch of the tracker from a non-main thread, "
+            "also with INT/TERM right after it), by 2-4 threads at once (first use, first use after a SIGKILL of the "
+            "tracker; with and without a delay in spawnv_passfds/_check_alive that widens the window), on files and "
+            "by creating loky Locks; loky_init_main children whose re-imported main module registers a file or "
+            "creates a Lock at import time. The thread of an operation and the delays are configurations of the "
+            "scenario: the model's step function has no thread argument, its prediction is the same. Compared with "
             "the Lean driver after every step: tracker incarnation of the acting member and of a new child, relaunch "
             "warning, live trackers, real writer set of every tracker pipe (/proc/<pid>/fd), tracked files, named "
             "semaphores, leak reports. Non-trivial = at least one spawn and one death before the end; distinct by history.")
@@ -62,6 +78,8 @@ class Prop(E3TreeProp):
         "signal mask and dispositions set before exec are inherited by the tracker; pass_fds/close_fds keep other write ends out of it",
         "tracker requests are <= 512 bytes (atomic pipe writes); file names used by the scenarios are short",
         "no SIGKILL races inside ensure_running/_send (tracker killed between the probe and the write): operations are atomic in the model",
+        "threading.RLock is a lock: ensure_running of the threads of one process are serialised, a concurrent group of "
+        "operations is an interleaving of atomic operations (theorem one_launch_per_death holds for every interleaving)",
     ]
     max_depth = {"quick": 2, "thorough": 3}
     _tier = "quick"
@@ -91,6 +109,30 @@ class Prop(E3TreeProp):
         add(("mkfile", 0, 1), ("op", 0, "register", 1), ("spawn", 0, 1, "loky", []), ("op", 1, "register", 1),
             ("op", 0, "maybe_unlink", 1), ("mkfile", 1, 2), ("op", 1, "register", 2), ("op", 1, "unregister", 2),
             ("spawn", 1, 2, "loky", []), ("exit", 0, "term"), ("exit", 1, "kill"), ("sig", 0, "term"), ("exit", 2, "osexit"))
+        # ---- the re-imported main module of a loky_init_main child uses the tracker at import time
+        add(("mkfile", 0, 1), ("op", 0, "register", 1), ("spawn", 0, 1, "loky_init_main", [], ["file", 1]),
+            ("info", 1), ("exit", 1, "kill"), ("info", 0), ("exit", 0, "normal"))
+        # ... the tracker of the tree is launched by that very spawn; the import creates a Lock; depth 2
+        add(("mkfile", 0, 1), ("spawn", 0, 1, "loky_init_main", [], ["lock", 5]),
+            ("spawn", 1, 2, "loky_init_main", [], ["file", 1]), ("exit", 1, "kill"), ("info", 2), ("exit", 0, "term"),
+            ("exit", 2, "osexit"))
+        # ---- tracker launched from a non-main thread, INT / TERM right after the launch; relaunch from a thread
+        add(("mkfile", 0, 1), ("opsig", 0, "register", 1, "term", "thread"), ("spawn", 0, 1, "loky", []),
+            ("sig", 0, "kill"), ("opsig", 1, "register", 1, "int", "thread"), ("op", 0, "register", 1, "thread"),
+            ("sig", 2, "term"), ("exit", 1, "normal"), ("exit", 0, "normal"))
+        add(("mkfile", 0, 1), ("opsig", 0, "register", 1, "int", "thread"), ("sig", 0, "kill"),
+            ("opsig", 0, "register", 1, "term", "pool"), ("sig", 1, "int"), ("sig", 1, "kill"),
+            ("op", 0, "register", 1, "pool"), ("exit", 0, "exc"))
+        # ---- several threads at once: first use; first use after a SIGKILL of the tracker (root and child)
+        add(("mkfile", 0, 1), ("mkfile", 0, 2), ("mkfile", 0, 3), ("pop", 0, "register", [1, 2, 3], 1), ("info", 0),
+            ("spawn", 0, 1, "loky", []), ("sig", 0, "kill"), ("pop", 1, "register", [1, 2], 1),
+            ("pop", 0, "register", [1, 2, 3], 1), ("exit", 1, "kill"), ("exit", 0, "normal"))
+        add(("pnew", 0, [1, 2, 3, 4], "Lock", 1), ("sig", 0, "kill"), ("pnew", 0, [5, 6, 7], "Lock", 1),
+            ("exit", 0, "normal"))
+        # ... without the delay (natural race), in a child whose tracker was never used by it
+        add(("mkfile", 0, 1), ("mkfile", 0, 2), ("pop", 0, "register", [1, 2, 1, 2], 0),
+            ("spawn", 0, 1, "loky_init_main", []), ("pnew", 1, [1, 2, 3], "Lock", 0), ("sig", 0, "kill"),
+            ("pop", 1, "register", [1, 2, 1], 0), ("exit", 1, "exc"), ("exit", 0, "normal"))
         if self._tier == "thorough":
             # small trees exhaustively: every death order of 3 members (chain and star), abrupt and soft causes
             import itertools
@@ -124,15 +166,38 @@ class Prop(E3TreeProp):
             sim.files.append(f)
             steps.append(["mkfile", p, f])
             return f
+        def thr(st):
+            """the operation is done by the main thread or by another thread of the member"""
+            r = rng.random()
+            return st + ["thread"] if r < 0.3 else st + ["pool"] if r < 0.4 else st
+
+        def group(p):
+            """2-4 threads of p use the tracker at the same time"""
+            k = rng.randint(2, 4)
+            slow = 1 if rng.random() < 0.7 else 0
+            if rng.random() < 0.3:
+                os_ = list(range(sim.next_obj, sim.next_obj + k))
+                sim.next_obj += k
+                steps.append(["pnew", p, os_, "Lock", slow])
+            else:
+                while len(sim.files) < 2:
+                    newfile(p)
+                fs = [rng.choice(sim.files) for _ in range(k)]
+                op = "register" if rng.random() < 0.8 else rng.choice(["unregister", "maybe_unlink"])
+                steps.append(["pop", p, op, fs, slow])
+            sim.ensure(p)
         f = newfile(0)
-        if rng.random() < 0.4:
+        r0 = rng.random()
+        if r0 < 0.35:
             sg = rng.choice(["int", "term", "term", "kill"] if rng.random() < 0.25 else ["int", "term"])
-            steps.append(["opsig", 0, "register", f, sg])
+            steps.append(thr(["opsig", 0, "register", f, sg]))
             t = sim.ensure(0)
             if sg == "kill":
                 sim.tracker_alive[t] = False
-        elif rng.random() < 0.85:
-            steps.append(["op", 0, "register", f])
+        elif r0 < 0.55:
+            group(0)
+        elif r0 < 0.93:
+            steps.append(thr(["op", 0, "register", f]))
             sim.ensure(0)
         n_actions = rng.randint(5, 13)
         kills_left = rng.choice([0, 0, 0, 1, 1, 2, 3])
@@ -149,7 +214,17 @@ class Prop(E3TreeProp):
                 c = sim.next_member
                 sim.next_member += 1
                 m = method if method != "mixed" else rng.choice(["loky", "loky_init_main"])
-                steps.append(["spawn", p, c, m, []])
+                st = ["spawn", p, c, m, []]
+                sim.initmain[c] = sim.initmain[p] and m == "loky_init_main"
+                if sim.initmain[c] and rng.random() < 0.5:
+                    # the main script uses the tracker at module level: the child does so while re-importing it
+                    if sim.files and rng.random() < 0.7:
+                        st.append(["file", rng.choice(sim.files)])
+                    else:
+                        st.append(["lock", sim.next_obj])
+                        sim.next_obj += 1
+                        sim.must_crash.add(c)
+                steps.append(st)
                 t = sim.ensure(p)
                 sim.alive.add(c)
                 sim.parent[c] = p
@@ -157,13 +232,15 @@ class Prop(E3TreeProp):
                 sim.trk[c] = t
             elif r < 0.40:
                 steps.append(["info", p])
-            elif r < 0.55:
+            elif r < 0.52:
                 f = newfile(p)
-                steps.append(["op", p, "register", f])
+                steps.append(thr(["op", p, "register", f]))
                 sim.ensure(p)
-            elif r < 0.65 and sim.files:
-                steps.append(["op", p, rng.choice(["register", "unregister", "maybe_unlink"]), rng.choice(sim.files)])
+            elif r < 0.60 and sim.files:
+                steps.append(thr(["op", p, rng.choice(["register", "unregister", "maybe_unlink"]), rng.choice(sim.files)]))
                 sim.ensure(p)
+            elif r < 0.67:
+                group(p)
             elif r < 0.80 and sim.tracker_alive:
                 k = rng.randrange(len(sim.tracker_alive))
                 steps.append(["sig", k, rng.choice(["int", "term"])])
@@ -173,6 +250,16 @@ class Prop(E3TreeProp):
                 k = rng.choice(live) if live and rng.random() < 0.8 else rng.randrange(len(sim.tracker_alive))
                 steps.append(["sig", k, "kill"])
                 sim.tracker_alive[k] = False
+                users = [m for m in sorted(sim.alive) if sim.trk[m] == k]
+                if users and rng.random() < 0.6:
+                    # the next use of the dead tracker: by several threads at once, or by a non-main thread with a
+                    # signal right after the relaunch
+                    q = rng.choice(users)
+                    if rng.random() < 0.6:
+                        group(q)
+                    else:
+                        steps.append(["opsig", q, "register", rng.choice(sim.files), rng.choice(["int", "term"]), "thread"])
+                        sim.ensure(q)
             elif len(sim.alive) > 1:
                 self._death(rng, sim, steps, p)
         order = sorted(sim.alive)
@@ -191,7 +278,7 @@ class Prop(E3TreeProp):
 
     @staticmethod
     def _death(rng, sim, steps, p):
-        if sim.live_children(p):
+        if sim.live_children(p) or p in sim.must_crash:
             how = rng.choice(KILLISH)
         else:
             how = rng.choice(KILLISH + SOFT)
@@ -205,10 +292,16 @@ class Prop(E3TreeProp):
             return [k]
         if k == "spawn":
             pairs = ",".join(f"{a}:{b}" for a, b in st[4]) or "-"
-            return [f"spawn {st[1]} {st[2]} {st[3]} {pairs}"]
+            imp = ""
+            if len(st) > 5 and st[5]:
+                imp = f" {st[5][1]}" if st[5][0] == "file" else f" L{st[5][1]}"
+            return [f"spawn {st[1]} {st[2]} {st[3]} {pairs}{imp}"]
         if k == "new":
-            from ..realproc.tt_engine import NSEMS
             return [f"new {st[1]} {st[2]} {NSEMS[st[3]]}"]
+        if k == "pop":          # the delay (st[4]) is a configuration of the real side only
+            return [f"pop {st[1]} {st[2]} {','.join(str(f) for f in st[3])}"]
+        if k == "pnew":
+            return [f"pnew {st[1]} {','.join(str(o) for o in st[2])} {NSEMS[st[3]]}"]
         return [" ".join(str(x) for x in st)]
 
     # ------------------------------------------------------------------ oracle (from the statement)
@@ -221,6 +314,7 @@ class Prop(E3TreeProp):
         any_kill = False
         registered = {}          # file -> "plain" while only ever registered (no unregister / maybe_unlink)
         first_tracker_seen = False
+        prev_alive = set()       # incarnations alive after the previous step
         for st, o in zip(steps, obs):
             kind = st[0]
             act = o.get("act") or {}
@@ -228,25 +322,40 @@ class Prop(E3TreeProp):
                 continue
             if kind == "start":
                 alive_members.add(0)
-            # ---- operations must not fail, whatever happened to the tracker
-            if kind in ("spawn", "op", "opsig", "info", "mkfile") and act.get("ok") is False:
+            holders = {k: [m for m in alive_members if believed.get(m) == k] for k in prev_alive}
+            # ---- operations must not fail, whatever happened to the tracker, whichever thread does them
+            if kind in TRACKED + ("info", "mkfile") and act.get("ok") is False:
                 return f"step {st}: the operation raised {act.get('exc')}: {act.get('msg')}"
-            p = st[1] if kind in ("spawn", "op", "opsig", "info") else None
+            if kind in ("pop", "pnew") and act.get("errors"):
+                return f"step {st}: a tracked operation done by a thread of member {st[1]} raised {act['errors'][0]}"
+            p = st[1] if kind in TRACKED + ("info",) else None
             # ---- self-healing
-            if kind in ("spawn", "op", "opsig"):
+            if kind in TRACKED:
                 warns = [w for w in act.get("warnings", []) if RELAUNCH in w]
                 old = believed.get(p)
                 new = o.get("trk")
+                launched = o.get("launched", 0)
+                thr = o.get("thr_trks") or []
+                if any(t != new for t in thr):
+                    return (f"step {st}: the threads of member {p} report different trackers {sorted(set(map(str, thr)))} "
+                            f"right after their operations (the member ends with {new})")
                 if old is not None and old in killed:
                     if new == old or new is None:
                         return f"step {st}: tracker incarnation {old} was killed but member {p} still reports it after a tracked operation"
                     if len(warns) != 1:
                         return f"step {st}: relaunch after a tracker death issued {len(warns)} warnings, expected exactly one"
+                    if launched != 1:
+                        return (f"step {st}: the tracker of member {p} was killed once; its next tracked operation(s) "
+                                f"launched {launched} tracker processes, expected exactly one")
                 else:
                     if warns:
                         return f"step {st}: 'relaunching' warning although the tracker of member {p} was not killed"
                     if old is not None and new != old:
                         return f"step {st}: member {p} switched from tracker {old} to {new} although {old} was not killed"
+                    want = 1 if old is None else 0
+                    if launched != want:
+                        return (f"step {st}: member {p} launched {launched} tracker processes, expected {want} "
+                                f"({'first use of the tracker in the tree' if want else 'its tracker is alive'})")
                 if new is not None and (kind != "opsig" or st[4] != "kill") and new not in o["alive"]:
                     return f"step {st}: member {p} reports tracker {new} which is not alive after the operation"
                 believed[p] = new
@@ -260,6 +369,18 @@ class Prop(E3TreeProp):
                 if o.get("child_died_at_startup"):
                     return f"step {st}: child {c} ended before it could run (start-up failed)"
                 alive_members.add(c)
+                imp = o.get("import")
+                if imp is not None:
+                    # ... also for what its main module does while it is re-imported, before the target runs
+                    if not imp.get("ok"):
+                        return (f"step {st}: the tracked operation at import time of child {c}'s main module raised "
+                                f"{imp.get('exc')}: {imp.get('msg')}")
+                    if imp.get("trk") != o.get("trk") or imp.get("launched"):
+                        return (f"step {st}: at import time of its main module child {c} used tracker incarnation "
+                                f"{imp.get('trk')} (it launched {imp.get('launched')} tracker process(es) itself), its "
+                                f"parent {p} reports {o.get('trk')}: not one tracker for the tree")
+                    if any(RELAUNCH in w for w in imp.get("warnings", [])):
+                        return f"step {st}: child {c} issued a 'relaunching' warning at import time"
                 if o.get("child_trk") != o.get("trk"):
                     return (f"step {st}: child {c} reports tracker incarnation {o.get('child_trk')}, its parent "
                             f"{p} reports {o.get('trk')}")
@@ -272,6 +393,9 @@ class Prop(E3TreeProp):
                 bad = {m: t for m, t in believed.items() if t not in (None, 0)}
                 if bad:
                     return f"step {st}: no tracker was killed, yet members report other incarnations than the root's: {bad}"
+                if o.get("ntrk", 0) > 1 or len(o["alive"]) > 1:
+                    return (f"step {st}: no tracker was killed, yet {max(o.get('ntrk', 0), len(o['alive']))} tracker "
+                            f"processes were started in the tree (alive now: {o['alive']}): not a single tracker")
             # ---- signals
             if kind in ("sig", "opsig"):
                 sg = st[2] if kind == "sig" else st[4]
@@ -292,8 +416,23 @@ class Prop(E3TreeProp):
                     registered.setdefault(f, "plain")
                 else:
                     registered[f] = "touched"
+            if kind == "pop":
+                for f in st[3]:
+                    if st[2] == "register":
+                        registered.setdefault(f, "plain")
+                    else:
+                        registered[f] = "touched"
+            if kind == "spawn" and len(st) > 5 and st[5] and st[5][0] == "file":
+                registered.setdefault(st[5][1], "plain")
             if kind == "exit":
                 alive_members.discard(st[1])
+            # ---- a tracker ends only by SIGKILL, or once no live process of the tree holds its pipe
+            for k in sorted(prev_alive - set(o["alive"]) - killed):
+                left = [m for m in holders.get(k, []) if m in alive_members]
+                if left:
+                    return (f"step {st}: tracker incarnation {k} was not killed, members {left} using it are alive, "
+                            f"yet it ended (its pipe was closed under it / it did its end-of-life cleanup early)")
+            prev_alive = set(o["alive"])
             # ---- cleanup only after the last member is gone (single-tracker regime)
             if not any_kill and first_tracker_seen:
                 if alive_members:
@@ -327,7 +466,13 @@ class Prop(E3TreeProp):
             elif s[0] == "sig":
                 ks.append("sig=" + s[2])
             elif s[0] == "opsig":
-                ks.append("startup-sig=" + s[4])
+                ks.append("startup-sig=" + s[4] + ("/non-main-thread" if s[-1] in ("thread", "pool") else ""))
+            elif s[0] == "op" and s[-1] in ("thread", "pool"):
+                ks.append("op-from-non-main-thread")
+            elif s[0] in ("pop", "pnew"):
+                ks.append(f"concurrent-{s[0]}" + ("/delayed" if s[4] else "/natural"))
+            if s[0] == "spawn" and len(s) > 5 and s[5]:
+                ks.append("import-time-" + s[5][0])
         ks.append(f"depth={max(depth.values())}")
         ks.append(f"members={len(depth)}")
         if case["steps"][2:] and any(s[0] == "exit" and s[1] == 0 for s in case["steps"][:-2]):
@@ -341,7 +486,7 @@ class Prop(E3TreeProp):
         steps = case["steps"]
         for i, s in enumerate(steps):
             if s[0] in ("info", "sig") or (s[0] == "op" and s[2] != "register"):
-                yield {"steps": steps[:i] + steps[i + 1:]}
+                yield dict(case, steps=steps[:i] + steps[i + 1:])
 
     def correspondence(self, ctx, corr):
         self._tier = ctx.tier
